@@ -104,6 +104,7 @@ type c14case struct {
 	ran             atomic.Int64
 	ranTwice        atomic.Int64
 	failingOps      int
+	lateFailing     atomic.Int64 // failures signalled by goroutines while the case's cleanup functions were running
 	liveDuring      bool
 	lateCleanup     bool
 	liveAfterCancel atomic.Int64
@@ -222,6 +223,11 @@ func c14Prop(sc Scenario, cases *[]*c14case) func(t *rapid.T) {
 					for i := 0; i < 8; i++ {
 						register()
 					}
+					if mix(u, uint64(g), 0x1a7e)%uint64(6*G) == 0 {
+						// a worker that reports its failure only when it is told to stop, i.e. while cleanup functions run
+						cs.lateFailing.Add(1)
+						t.Errorf("worker %d failed while shutting down", g)
+					}
 				}()
 			}
 		}
@@ -305,6 +311,14 @@ func c14Run(t *testing.T, sc Scenario, res *Result) {
 	r := newRng(sc.Seed, 0xc14)
 	var cases []*c14case
 	prop := c14Prop(sc, &cases)
+	if mix(sc.Seed, 0xc57)%4 == 0 {
+		// the same script on the T of a Custom generator function: its goroutines, cleanups and context belong to
+		// that call of the function, and a failure signalled on it falsifies the test case
+		inner := prop
+		g := rapid.Custom(func(it *rapid.T) int { inner(it); return 0 })
+		prop = func(t *rapid.T) { g.Draw(t, "custom") }
+		res.inc("scenarios_on_the_T_of_a_Custom_function")
+	}
 	type outcome struct {
 		kind string
 		msg  string
@@ -332,7 +346,7 @@ func c14Run(t *testing.T, sc Scenario, res *Result) {
 		rp := parseReport(tb)
 		anyFail := false
 		for _, cs := range cases {
-			if cs.failingOps > 0 {
+			if cs.failingOps > 0 || cs.lateFailing.Load() > 0 {
 				anyFail = true
 			}
 		}
@@ -362,8 +376,9 @@ func c14Run(t *testing.T, sc Scenario, res *Result) {
 		}
 		for i, cs := range cases {
 			failed := outcomes[i].kind == "failed"
-			if failed != (cs.failingOps > 0) {
-				res.violate(sc, "c14/lost-update", fmt.Sprintf("case %d: %d failing calls were made by goroutines but the case's outcome is %q", i, cs.failingOps, outcomes[i].kind+" "+outcomes[i].msg), nil)
+			nf := cs.failingOps + int(cs.lateFailing.Load())
+			if failed != (nf > 0) {
+				res.violate(sc, "c14/lost-update", fmt.Sprintf("case %d: %d failing calls were made by goroutines (%d of them while cleanup functions ran) but the case's outcome is %q", i, nf, cs.lateFailing.Load(), outcomes[i].kind+" "+outcomes[i].msg), nil)
 			}
 		}
 	}
